@@ -3,6 +3,8 @@ import AcraModel.Envelope.ContainerLemmas
 import AcraModel.Envelope.BlockLemmas
 import AcraModel.Envelope.ProtectLemmas
 import AcraModel.Envelope.ScanLemmas
+import AcraModel.Envelope.ExampleOps
+import AcraModel.Crypto.Box
 /-!
 # C01 — protect-then-reveal returns the original bytes for the owning client
 
@@ -534,6 +536,67 @@ theorem onColumn_protect_struct_in_text (c : CryptoOps) (hs : SealLaws c) (hsl :
   rw [h, hsc]
   simp [ScanOut.prepend]
 
+/-! ## both kinds at once
+
+`RoundTripHyps c k kvW kvR m rnd p` (in `Envelope/ProtectLemmas.lean`) is the hypothesis bundle of
+`reveal_protect_block` for `k = .block` and of `reveal_protect_struct` for `k = .struct`. -/
+
+/-- Protect-then-reveal, either kind: what `protect` produced for an unprotected value `m` under the
+writer's key view is opened to exactly `m` by `reveal` under any reader key view whose key list
+contains the writer's key (so also after key rotations). -/
+theorem reveal_protect (c : CryptoOps) (k : Kind) (kvW kvR : KeyView) (m rnd p : Bytes)
+    (h : RoundTripHyps c k kvW kvR m rnd p)
+    (hnm : matchKind k m = false) (hnr : registryMatch m = false)
+    (hp : protect c kvW k m rnd = .ok p) : reveal c kvR p = .ok m := by
+  cases k with
+  | block =>
+    obtain ⟨hs, key, pre, post, hkid, hW, hR, hpre, hek, hpl⟩ := h
+    exact reveal_protect_block c hs kvW kvR key m rnd p pre post hkid hW hR hpre hek hpl hnm hnr hp
+  | struct =>
+    obtain ⟨hs, hsl, hm, hml, hk, priv, pre, post, hpriv, hW, hR, hpre⟩ := h
+    exact reveal_protect_struct c hs hsl hm hml hk kvW kvR priv m rnd p pre post hpriv hW hR hpre hnm hnr hp
+
+/-- A protected value is never wrapped a second time, either kind: if `protect` changed its input,
+every further `protect` of the result – by either handler, for any client, with any randomness –
+returns it unchanged. -/
+theorem protect_idempotent (c : CryptoOps) (k : Kind) (kvW kvR : KeyView) (m rnd p : Bytes)
+    (h : RoundTripHyps c k kvW kvR m rnd p)
+    (hp : protect c kvW k m rnd = .ok p) (hne : p ≠ m) :
+    ∀ (k' : Kind) (kv' : KeyView) (rnd' : Bytes), protect c kv' k' p rnd' = .ok p := by
+  cases k with
+  | block =>
+    obtain ⟨_, key, _, _, hkid, hW, _, _, _, hpl⟩ := h
+    exact protect_idempotent_block c kvW key m rnd p hW hkid hpl hp hne
+  | struct =>
+    obtain ⟨hs, hsl, _, hml, hk, _⟩ := h
+    exact protect_idempotent_struct c hs hsl hml hk kvW m rnd p hp hne
+
+/-- Protect, embed in a column value, read through the transparent column processor, either kind:
+`OnColumn` returns the bytes before the protected value unchanged, then exactly `m`, then the result
+of scanning the bytes after it – provided no position before the value is processed and the
+callbacks before the decrypt callback leave the container alone. `m ≠ p ++ suf`: the callback reports
+"unchanged" if its output equals its input (automatic under `SealLen`). -/
+theorem onColumn_protect_embedded (c : CryptoOps) (k : Kind) (kvW kvR : KeyView) (m rnd p bpre suf : Bytes)
+    (front rest : List Callback)
+    (h : RoundTripHyps c k kvW kvR m rnd p)
+    (hnm : matchKind k m = false) (hnr : registryMatch m = false)
+    (hp : protect c kvW k m rnd = .ok p)
+    (hne : m ≠ p ++ suf)
+    (hfront : ∀ cb ∈ front, cb (p ++ suf) = .same ∨ cb (p ++ suf) = .decErr)
+    (hskip : ∀ i, i < bpre.length → ∃ hit,
+      headStep (front ++ decryptCallback c kvR :: rest) ((bpre ++ p ++ suf).drop i) = .skip hit) :
+    onColumn (front ++ decryptCallback c kvR :: rest) (bpre ++ p ++ suf) =
+      (scan (front ++ decryptCallback c kvR :: rest) suf).prepend (bpre ++ m) true := by
+  cases k with
+  | block =>
+    obtain ⟨hs, key, pre, post, hkid, hW, hR, hpre, hek, hpl⟩ := h
+    exact onColumn_protect_embedded_block c hs kvW kvR key m rnd p bpre suf pre post front rest hkid hW hR hpre hek
+      hpl hnm hnr hp hne hfront hskip
+  | struct =>
+    obtain ⟨hs, hsl, hm, hml, hk, priv, pre, post, hpriv, hW, hR, hpre⟩ := h
+    exact onColumn_protect_embedded_struct c hs hsl hm hml hk kvW kvR priv m rnd p bpre suf pre post front rest
+      hpriv hW hR hpre hnm hnr hp hfront hskip
+
 /-! ## totality and sizes (these discharge the explicit length hypotheses above under `SealLen`) -/
 
 /-- Under the length law of the AEAD an AcraBlock is exactly 138 bytes longer than its message
@@ -635,6 +698,22 @@ theorem protect_struct_total (c : CryptoOps) (hs : SealLaws c) (hm : MsgLaws c) 
     simp only [hnm, hnr, hW, hsc, Bool.or_self, Bool.false_eq_true, if_false, Out.bind_ok]
     exact c01_serialize_eq _ hsne
 
+/-- Under `SealLen`/`MsgLen` the container `protect` produces for an unprotected value with the
+AcraStruct handler is exactly 201 bytes longer than the value (12 container + 145 AcraStruct header +
+44 seal overhead). -/
+theorem protect_struct_length (c : CryptoOps) (hs : SealLaws c) (hsl : SealLen c) (hml : MsgLen c)
+    (hk : KeygenLaws c) (kv : KeyView) (m rnd p : Bytes)
+    (hnm : matchKind .struct m = false) (hnr : registryMatch m = false)
+    (hp : protect c kv .struct m rnd = .ok p) : p.length = m.length + 201 ∧ m.length < 2^32 := by
+  obtain ⟨e, he, _, rfl⟩ := c01_protect_ok hp hnm hnr
+  obtain ⟨pub, _, hcs⟩ := c01_encryptKind_struct he hnm
+  obtain ⟨encKey, encData, h1, h2, rfl⟩ := c01_createStruct_ok hcs
+  obtain ⟨_, _, hpub, hek, hed, hmlen, _⟩ := c01_createStruct_sizes hs hsl hml hk h1 h2
+  refine ⟨?_, hmlen⟩
+  rw [c01_serBytes_length]
+  simp [c01_structTag_length, hpub, hek, hed]
+  omega
+
 /-! ## the empty value -/
 
 /-- The empty byte string is not a protected value for any handler … -/
@@ -676,5 +755,193 @@ theorem protect_empty_err (c : CryptoOps) (hs : SealLaws c) (kv : KeyView) (k : 
       unfold createBlock
       simp only [henc]
       rfl
+
+/-! ## non-vacuity: every hypothesis bundle above is satisfied by a concrete instance -/
+
+
+
+
+/-- 1: block_roundtrip is applicable: stand-in instance, a key with a different id before the
+writer's key, another key after it -/
+example : ∃ b, createBlock toyOps [1,2,3] [7] [9,9] (List.replicate 56 5) = .ok b ∧
+    (∀ suffix, extractBlock (b ++ suffix) = .ok (b.length, b)) ∧
+    decryptBlock toyOps ([[4,5]] ++ [1,2,3] :: [[1,2,9]]) [7] b = .ok [9,9] := by
+  have hs := toy_sealLaws
+  have hsl := toy_sealLen
+  obtain ⟨b, hb⟩ := block_create_total toyOps hs [1,2,3] [7] [9,9] (List.replicate 56 5) (by decide) (by decide)
+    (by decide) (by decide)
+  have hkid := keyId_length toyOps toy_hashLen [1,2,3] [7]
+  obtain ⟨hl, _, hek⟩ := block_sizes toyOps hs hsl _ _ _ _ b hkid hb
+  refine ⟨b, hb, block_roundtrip toyOps hs [1,2,3] [7] [9,9] _ b [[4,5]] [[1,2,9]] hkid
+    (fun ek h => by rw [hek ek h]; decide) (by rw [hl]; decide) hb ?_⟩
+  intro k' hk' encKey _ hid
+  simp only [List.mem_singleton] at hk'
+  subst hk'
+  exact absurd hid (by decide)
+
+
+
+/-- 1': block_roundtrip_commit is applicable: the transparent-box instance (which has key
+commitment), an earlier key `[1,2,4]` whose 2-byte id collides with the writer's `[1,2,3]` -/
+example : keyId boxOps [1,2,4] [] = keyId boxOps [1,2,3] [] ∧
+    ∃ b, createBlock boxOps [1,2,3] [] [9,9] (List.replicate 56 5) = .ok b ∧
+    (∀ suffix, extractBlock (b ++ suffix) = .ok (b.length, b)) ∧
+    decryptBlock boxOps [[1,2,4], [1,2,3]] [] b = .ok [9,9] := by
+  refine ⟨by decide, ?_⟩
+  obtain ⟨b, hb⟩ := block_create_total boxOps Box.sealLaws [1,2,3] [] [9,9] (List.replicate 56 5) (by decide) (by decide)
+    (by decide) (by decide)
+  have hkid : (keyId boxOps [1,2,3] []).length = 2 := by decide
+  have hek : ∀ encKey, boxOps.enc [1,2,3] [] ((List.replicate 56 5).take 32) (((List.replicate 56 (5:UInt8)).drop 44).take 12) = some encKey →
+      encKey.length < 65536 := by
+    intro encKey h
+    have : boxOps.enc [1,2,3] [] ((List.replicate 56 5).take 32) (((List.replicate 56 (5:UInt8)).drop 44).take 12) =
+        some (Box.esc [1,2,3] ++ (Box.esc [] ++ (Box.esc (List.replicate 12 5) ++ List.replicate 32 5))) := by decide
+    rw [this] at h
+    cases h
+    decide
+  have hbl : b.length < 2^64 := by
+    obtain ⟨encData, encKey, h1, h2, rfl⟩ := c01_createBlock_ok hb
+    have e1 : boxOps.enc ((List.replicate 56 5).take 32) [] [9,9] (((List.replicate 56 (5:UInt8)).drop 32).take 12) =
+        some (Box.esc (List.replicate 32 5) ++ (Box.esc [] ++ (Box.esc (List.replicate 12 5) ++ [9,9]))) := by decide
+    have e2 : boxOps.enc [1,2,3] [] ((List.replicate 56 5).take 32) (((List.replicate 56 (5:UInt8)).drop 44).take 12) =
+        some (Box.esc [1,2,3] ++ (Box.esc [] ++ (Box.esc (List.replicate 12 5) ++ List.replicate 32 5))) := by decide
+    rw [e1] at h1; rw [e2] at h2
+    cases h1; cases h2
+    rw [c01_buildBlock_length _ _ _ hkid]
+    decide
+  exact ⟨b, hb, block_roundtrip_commit boxOps Box.sealLaws Box.sealCommit [1,2,3] [] [9,9] _ b [[1,2,4], [1,2,3]]
+    hkid hek hbl hb (by simp)⟩
+
+
+
+
+
+/-- 4/5/6 (AcraBlock kind): written with key `[1,2,3]`, read with the rotated key list
+`[[4,5], [1,2,3], [1,2,9]]`; the protected value sits behind the prefix `%%` (two bytes that look like
+the beginning of a container tag) and before `cd` -/
+example :
+    let kvW : KeyView := ⟨none, none, some [1,2,3], none⟩
+    let kvR : KeyView := ⟨none, none, some [4,5], some ([[4,5]] ++ [1,2,3] :: [[1,2,9]])⟩
+    ∃ p, protect toyOps kvW .block [9,9] (List.replicate 56 5) = .ok p ∧ reveal toyOps kvR p = .ok [9,9] ∧
+      (∀ k' kv' rnd', protect toyOps kv' k' p rnd' = .ok p) ∧
+      onColumn [decryptCallback toyOps kvR] ([37,37] ++ p ++ [99,100]) = .ok ([37,37] ++ [9,9] ++ [99,100]) true := by
+  intro kvW kvR
+  have hs := toy_sealLaws
+  have hsl := toy_sealLen
+  have hkid := keyId_length toyOps toy_hashLen [1,2,3] []
+  have hnm : matchKind .block [9,9] = false := by decide
+  have hnr : registryMatch [9,9] = false := by decide
+  obtain ⟨p, hp⟩ := protect_block_total toyOps hs kvW [1,2,3] [9,9] (List.replicate 56 5) rfl (by decide) (by decide)
+    (by decide) (by decide)
+  obtain ⟨hpl, _⟩ := protect_block_length toyOps hs hsl kvW [1,2,3] [9,9] _ p rfl hkid hnm hnr hp
+  have hpl' : p.length = 152 := hpl
+  have hek : ∀ encKey, toyOps.enc [1,2,3] [] ((List.replicate 56 5).take 32) (((List.replicate 56 (5:UInt8)).drop 44).take 12) = some encKey →
+      encKey.length < 65536 := by
+    intro ek h
+    have := hsl.enc_len _ _ _ _ _ h
+    rw [this]; decide
+  have hkpre : ∀ k' ∈ [[4,5]], ∀ encKey, toyOps.enc [1,2,3] [] ((List.replicate 56 5).take 32) (((List.replicate 56 (5:UInt8)).drop 44).take 12) = some encKey →
+      keyId toyOps k' [] = keyId toyOps [1,2,3] [] → toyOps.dec k' [] encKey = none := by
+    intro k' hk' encKey _ hid
+    simp only [List.mem_singleton] at hk'
+    subst hk'
+    exact absurd hid (by decide)
+  have hne : ∀ suf : Bytes, [9,9] ≠ p ++ suf := by
+    intro suf h
+    have := congrArg List.length h
+    rw [List.length_append, hpl'] at this
+    simp at this
+    omega
+  have hH : RoundTripHyps toyOps .block kvW kvR [9,9] (List.replicate 56 5) p :=
+    ⟨hs, [1,2,3], [[4,5]], [[1,2,9]], hkid, rfl, rfl, hkpre, hek, by rw [hpl']; decide⟩
+  refine ⟨p, hp, ?_, ?_, ?_⟩
+  · exact reveal_protect toyOps .block kvW kvR [9,9] _ p hH hnm hnr hp
+  · exact protect_idempotent toyOps .block kvW kvR [9,9] _ p hH hp
+      (by have := hne []; rw [List.append_nil] at this; exact fun h => this h.symm)
+  · have h := onColumn_protect_embedded toyOps .block kvW kvR [9,9] _ p [37,37] [99,100] [] [] hH
+      hnm hnr hp (hne _) (by simp) ?_
+    · rw [List.nil_append] at h
+      obtain ⟨hit, hsc⟩ := c01_scan_plain [decryptCallback toyOps kvR] [99,100]
+        (by have := c01_skip_of_no_tag_byte [decryptCallback toyOps kvR] [99,100] [] (by decide)
+            simpa using this)
+      rw [h, hsc]
+      simp [ScanOut.prepend]
+    · -- the two `%` positions of the prefix: byte 11 from there is a byte of the length field, not an envelope id
+      obtain ⟨e, he, _, rfl⟩ := c01_protect_ok hp hnm hnr
+      have hel : e.length = 140 := by rw [c01_serBytes_length] at hpl'; omega
+      intro i hi
+      have hi' : i = 0 ∨ i = 1 := by simp at hi; omega
+      refine ⟨false, ?_⟩
+      rcases hi' with rfl | rfl
+      · apply c01_headStep_pct_bad_id
+        intro x hx
+        unfold serBytes at hx
+        rw [hel] at hx
+        have : x = 0 := by
+          simp [containerTag, toBytes, Layout.containerTag, containerMin, Layout.containerMinSize, leBytes] at hx
+          exact hx.symm
+        subst this; decide
+      · apply c01_headStep_pct_bad_id
+        intro x hx
+        unfold serBytes at hx
+        rw [hel] at hx
+        have : x = 0 := by
+          simp [containerTag, toBytes, Layout.containerTag, containerMin, Layout.containerMinSize, leBytes] at hx
+          exact hx.symm
+        subst this; decide
+
+
+
+/-- 2: struct_roundtrip is applicable to the executable stand-in instance (`H` = SHA-256): a generated
+key pair, the reader's list has the right key first and another key after it -/
+example :
+    let priv := shimOps.privOfSeed (List.replicate 32 1)
+    let other := shimOps.privOfSeed (List.replicate 32 2)
+    ∃ s, createStruct shimOps (shimOps.pubOf priv) [7] [1,2,3] (List.replicate 88 7) = .ok s ∧
+      validateStruct s = .ok () ∧ (∀ suffix, extractStruct (s ++ suffix) = .ok (s.length, s)) ∧
+      decryptStructRotated shimOps [7] s ([] ++ priv :: [other]) = .ok [1,2,3] := by
+  intro priv other
+  have hpriv : shimOps.validPriv priv = true := shim_keygenLaws.valid_seed _ (by decide)
+  obtain ⟨s, hsc⟩ := struct_create_total shimOps shim_sealLaws shim_msgLaws shim_keygenLaws priv [7] [1,2,3]
+    (List.replicate 88 7) hpriv (by decide) (by decide) (by decide)
+  exact ⟨s, hsc, struct_roundtrip shimOps shim_sealLaws shim_sealLen shim_msgLaws shim_msgLen shim_keygenLaws
+    priv [7] [1,2,3] _ s [] [other] hpriv hsc (by simp)⟩
+
+/-- 4/5/6 (AcraStruct kind) on the executable stand-in instance: protect with the public key, reveal
+with a key list that has the matching private key first, never wrapped twice, found inside text -/
+example :
+    let priv := shimOps.privOfSeed (List.replicate 32 1)
+    let other := shimOps.privOfSeed (List.replicate 32 2)
+    let kvW : KeyView := ⟨some (shimOps.pubOf priv), none, none, none⟩
+    let kvR : KeyView := ⟨none, some ([] ++ priv :: [other]), none, none⟩
+    ∃ p, protect shimOps kvW .struct [1,2,3] (List.replicate 88 7) = .ok p ∧ reveal shimOps kvR p = .ok [1,2,3] ∧
+      (∀ k' kv' rnd', protect shimOps kv' k' p rnd' = .ok p) ∧
+      onColumn [decryptCallback shimOps kvR] ([97,98] ++ p ++ [99,100]) = .ok ([97,98] ++ [1,2,3] ++ [99,100]) true := by
+  intro priv other kvW kvR
+  have hpriv : shimOps.validPriv priv = true := shim_keygenLaws.valid_seed _ (by decide)
+  have hnm : matchKind .struct [1,2,3] = false := by decide
+  have hnr : registryMatch [1,2,3] = false := by decide
+  obtain ⟨p, hp⟩ := protect_struct_total shimOps shim_sealLaws shim_msgLaws shim_keygenLaws kvW priv [1,2,3]
+    (List.replicate 88 7) hpriv rfl (by decide) (by decide) (by decide)
+  obtain ⟨hpl, _⟩ := protect_struct_length shimOps shim_sealLaws shim_sealLen shim_msgLen shim_keygenLaws kvW _ _ p hnm hnr hp
+  have hH : RoundTripHyps shimOps .struct kvW kvR [1,2,3] (List.replicate 88 7) p :=
+    ⟨shim_sealLaws, shim_sealLen, shim_msgLaws, shim_msgLen, shim_keygenLaws, priv, [], [other], hpriv, rfl, rfl, by simp⟩
+  refine ⟨p, hp, ?_, ?_, ?_⟩
+  · exact reveal_protect shimOps .struct kvW kvR [1,2,3] _ p hH hnm hnr hp
+  · exact protect_idempotent shimOps .struct kvW kvR [1,2,3] _ p hH hp
+      (by intro h; rw [h] at hpl; simp at hpl)
+  · exact onColumn_protect_struct_in_text shimOps shim_sealLaws shim_sealLen shim_msgLaws shim_msgLen shim_keygenLaws
+      kvW kvR priv [1,2,3] _ p [97,98] [99,100] [] [other] hpriv rfl rfl (by simp) hnm hnr hp (by decide) (by decide)
+
+
+/-- 3: container_roundtrip is applicable -/
+example : ∃ p, serialize [1,2,3] idStruct = .ok p ∧ deserialize (p ++ [5]) = .ok ([1,2,3], idStruct) := by
+  obtain ⟨p, h1, _, _, h4, _⟩ := container_roundtrip [1,2,3] idStruct (by decide) (by decide) (Or.inr rfl)
+  exact ⟨p, h1, h4 [5]⟩
+
+/-- 7: the hypotheses of protect_empty_err hold for both instances -/
+example : protect shimOps ⟨none, none, some [1], none⟩ .block [] [] = .err ∧
+    protect boxOps ⟨some [1], none, none, none⟩ .struct [] [] = .err :=
+  ⟨protect_empty_err shimOps shim_sealLaws _ _ _, protect_empty_err boxOps Box.sealLaws _ _ _⟩
 
 end AcraModel.Props.C01
